@@ -515,6 +515,25 @@ def gen_c15(r, tier):
 
 def gen_plan(prop, r, tier, run):
     plan = {'C04': gen_c04, 'C10': gen_c10, 'C15': gen_c15}[prop](r, tier)
+    if prop == 'C15':
+        # the same assertion fails twice in a row, the second result
+        # differing from the first only in how its lines are separated
+        # (form feed for a newline) or by a final empty line: the artefacts
+        # of the first failure are lying in the temp directory
+        out = []
+        for op in plan['ops']:
+            out.append(op)
+            if op['op'] == 'assert_string' and r.chance(0.12) \
+                    and '\n' in op['actual'][:-1]:
+                again = copy.deepcopy(op)
+                a = op['actual']
+                k = a.index('\n')
+                again['actual'] = r.pick([a[:k] + '\x0c' + a[k + 1:],
+                                          a + '\n', a[:k] + '\x0b' + a[k:]])
+                again.pop('storage_fault', None)
+                again.pop('fault', None)
+                out.append(again)
+        plan['ops'] = out
     for i, op in enumerate(plan['ops']):
         op['i'] = i
         if prop in ('C04', 'C15') and op['op'] in (
@@ -523,6 +542,10 @@ def gen_plan(prop, r, tier, run):
             # only where everything compared is ASCII, so that the outcome
             # is the same under any encoding)
             op['encoding_arg'] = 'iso-8859-1'
+        if prop == 'C10' and op['op'] in (
+                'assert_string', 'assert_textfile', 'assert_textfiles') \
+                and 'ref0' in op and r.chance(0.08):
+            op['ref0_encoding'] = r.pick(['utf-16', 'utf-8-sig'])
         if prop in ('C04', 'C15') and op['op'] in (
                 'assert_textfile', 'assert_binary', 'assert_df_file') \
                 and r.chance(0.08):
@@ -910,6 +933,13 @@ def prepare_assert(ctx, op):
             elif op['op'] in ('assert_df', 'assert_df_file'):
                 os.makedirs(os.path.dirname(p), exist_ok=True)
                 build_frame(content).to_parquet(p)
+            elif op.get('ref0_encoding') and content:
+                # the existing reference was saved by some other tool, as
+                # UTF-16 or as UTF-8 with a byte-order mark
+                raw_write(p, data=content.encode(op['ref0_encoding']))
+                ctx.stats['faults']['existing_reference_in_%s'
+                                    % op['ref0_encoding'].replace('-', '_')] \
+                    += 1
             else:
                 raw_write(p, text=content)
     apaths = []
